@@ -4,10 +4,14 @@ Exact-oracle tie: _coset_probabilities / decode of PlanarMPSDecoder, PlanarRMPSD
 RotatedPlanarRMPSDecoder, Color666MPSDecoder (chi and tol unset, every mode, with and without stp) against the
 exact coset sums  sum_{g in G} prod_q dist(letter_q(f g))  computed in exact integer arithmetic from the float
 distribution (stabilizer group enumerated from the independent generators, 2^(n-k) elements), and against the
-extracted Tensor/Coset model on the small codes; PlanarYDecoder against exact sums over the Y-only operators."""
+extracted Tensor/Coset model on the small codes; PlanarYDecoder against exact sums over the Y-only operators.
+"chi unset" is taken in every documented spelling (harness/c10_spell.py): omitted / None / 0 (the constructors document
+"unrestricted=falsy", the command line "[chi] INT >=0"), likewise stp and tol, by keyword, positionally and through the
+command line's constructor strings."""
 import itertools
 import json
 import math
+import sys
 from fractions import Fraction
 
 import numpy as np
@@ -177,9 +181,16 @@ def run(ctx):
     from qecsim.models.generic import (DepolarizingErrorModel, BitFlipErrorModel, PhaseFlipErrorModel,
                                        BitPhaseFlipErrorModel, BiasedDepolarizingErrorModel)
     rng = ctx.rng
+    from harness import c10_spell
+    builder = c10_spell.Builder(ctx)        # decoder classes + the command line's constructor-string parser
+    cycle = c10_spell.SpellCycle(builder)   # documented spellings of 'unset' parameters, round-robin (no randomness)
+    n_decode = [0]
     ctx.rule = ('planar %s, rotated planar %s, colour 3 and 5; every syndrome when n-k <= 8, random syndromes beyond; '
                 'distributions: depolarizing, biased 1e2..1e8, vanishing letters, single-letter, tiny (1e-3..1e-10), '
-                'unnormalised, random; every mode c/r/a, stp None/0.5/1; exact group sums in integer arithmetic; '
+                'unnormalised, random; every mode c/r/a, stp None/0.5/1; chi / stp / tol left unset in every documented spelling '
+                '(omitted, None, 0, 0.0; by keyword, positionally, mixed, as the command line constructor string: full product on '
+                'planar 2x2, rotated 3x3, colour 3, every (chi spelling, mode) on the other codes with n <= 13, in rotation in '
+                'decode calls on all sizes); exact group sums in integer arithmetic; '
                 'nontrivial = distinct (code, syndrome, distribution) with non-zero syndrome and (non-square lattice or '
                 'biased distribution)' % (ctx.pick('2x2..3x4', '2x2..4x4'), ctx.pick('3x3..4x4', '3x3..4x5')))
     ctx.props_obligations()
@@ -249,7 +260,7 @@ def run(ctx):
                            'exact_coset_probabilities': [str(float(e)) for e in exact]} if (si, di) == (3, 0) and n <= 13 else None)
                 rep0 = {'code': repr(code), 'syndrome': bitstr(syn), 'dist': [float(p).hex() for p in dist],
                         'sample': bitstr(f), 'exact': [str(float(e)) for e in exact]}
-                if small and (n <= 5 or si % max(1, len(syndromes) // ctx.pick(12, 48)) == 0):
+                if small and (n <= 5 or si % max(1, len(syndromes) // ctx.pick(7, 48)) == 0):
                     for ci, c in enumerate(cands):
                         add('exact oracle vs Coset.coset_prob', 'coset %d %s %s %s' % (n, gens_str, bitstr(c), ' '.join(hex(v) for v in a)),
                             hex(exact_int[ci]), rep0)
@@ -286,15 +297,28 @@ def run(ctx):
                                                   dict(rep, coset='IXYZ'[ci], got=str(ps[ci])))
                                     break
                     # decode: the returned recovery lies in a coset of maximal exact probability
-                    dec = mk(rng.choice(['c', 'r', 'a']) if has_stp is not None else 'c', None)
+                    dmode = rng.choice(['c', 'r', 'a']) if has_stp is not None else 'c'
+                    dec = mk(dmode, None)
+                    repd = dict(rep0, decoder=repr(dec))
+                    n_decode[0] += 1
+                    if n_decode[0] % 2:     # every other call: one of the documented equivalent spellings of 'chi / stp / tol
+                        sp = cycle.next(dname, dmode)     # unset' (None / 0 / 0.0 / omitted; positional / keyword / CLI string)
+                        repd['construct'] = sp.record()
+                        try:
+                            dec = builder.construct(repd['construct'])
+                        except Exception as e:  # noqa
+                            ctx.violation('unset-spelling-constructor', 'a documented spelling of unset parameters is rejected: '
+                                          '%s raised %s' % (sp.text, exc_class(e)), repd)
+                            continue
+                        repd['decoder'] = repr(dec)
                     try:
                         r = dec.decode(code, syn, error_model=DistModel(dist), error_probability=0.1)
                     except Exception as e:  # noqa
-                        ctx.violation('exception', 'decode raised ' + exc_class(e), dict(rep0, decoder=repr(dec)))
+                        ctx.violation('exception', 'decode raised ' + exc_class(e), repd)
                         continue
                     ctx.count(None, False, dname + ' decode')
                     cls = logical_class(pt, code, np.asarray(r) ^ f)
-                    rep = dict(rep0, decoder=repr(dec), recovery=bitstr(r), recovery_class=cls)
+                    rep = dict(repd, recovery=bitstr(r), recovery_class=cls)
                     if cls is None:
                         ctx.violation('decode-syndrome', 'decoded recovery does not reproduce the syndrome', rep)
                         continue
@@ -494,6 +518,13 @@ def run(ctx):
 
     sect['Y decoder'] = round(time.time() - t_sec, 1)
     t_sec = time.time()
+    # ---- documented equivalent spellings of 'unset' (added after a seeded change that made chi=0 - documented as
+    #      unrestricted, and the only command-line route to modes r / a with exact contraction - truncate to bond dimension 1
+    #      was missed): chi in {omitted, None, 0}, stp / tol in {omitted, None, 0, 0.0}, mode omitted / given, passed by
+    #      keyword / positionally / mixed / as the command line's constructor string; every one against the exact sums
+    c10_spell.run_spellings(ctx, sys.modules[__name__], families, add, builder)
+    sect['unset spellings'] = round(time.time() - t_sec, 1)
+    t_sec = time.time()
     # ---- correspondence with the extracted model -----------------------------------------------------------
     out = ctx.model('c10', req, timeout=1500)
     for (fn, inp, impl), mo, line in zip(exp, out, req):
@@ -558,7 +589,7 @@ def replay(path):
     if rep.get('check') == 'c10_net':      # a site / contraction of the network built by create_tn (harness/c10_net.py)
         from harness import c10_net
         return c10_net.replay_dict(rep)
-    if 'decoder' not in rep or 'dist' not in rep or 'syndrome' not in rep:
+    if ('decoder' not in rep and 'construct' not in rep) or 'dist' not in rep or 'syndrome' not in rep:
         return 0
     import logging
     logging.getLogger('qecsim').setLevel(logging.CRITICAL)
@@ -567,7 +598,12 @@ def replay(path):
     from qecsim.models.rotatedplanar import RotatedPlanarCode, RotatedPlanarMPSDecoder, RotatedPlanarRMPSDecoder  # noqa
     from qecsim.models.color import Color666Code, Color666MPSDecoder  # noqa
     code = eval(rep['code'])
-    dec = eval(rep['decoder'])
+    if rep.get('construct'):    # constructed through a documented spelling of the unset parameters (harness/c10_spell.py)
+        from harness import c10_spell
+        print('decoder constructed as', rep['construct']['text'])
+        dec = c10_spell.Builder().construct(rep['construct'])
+    else:
+        dec = eval(rep['decoder'])
     dist = tuple(float.fromhex(h) if isinstance(h, str) else float(h) for h in rep['dist'])
     syn = np.array([int(ch) for ch in rep['syndrome']], dtype=int)
     oracle = GroupOracle(code)
